@@ -123,3 +123,188 @@ def grid_options(ck, jobs):
         for t in notes:
             ck.note_drift("[extension Grid.tla user grid / offset] " + t)
     ck.extra["extension_grid_option_cases"] = n
+
+
+_NM_DATA = {"sf": [["x", "y", "x", "y", "x", "y"], ["p", "p", "q", "q", "p", "q"]], "cf": [["u", "u", "v", "u", "v", "v"], ["k", "m", "k", "m", "m", "k"]]}
+
+
+def _nm_build(form, which):
+    """Naming.tla form -> a real argument carrying the fixed data columns of `which`"""
+    import pandas as pd
+    cols = _NM_DATA[which]
+    real = lambda nm: 7 if nm == "INT" else nm
+    k = form["k"]
+    if k == "absent":
+        return None, 0
+    if k == "list":
+        return list(cols[0]), 1
+    if k == "arr1":
+        return np.array(cols[0]), 1
+    if k == "arr2":
+        return np.array(cols[:form["n"]]).T, form["n"]
+    if k == "series":
+        return pd.Series(cols[0], name=None if form["name"] == "NONE" else real(form["name"]), index=[5, 3, 9, 1, 0, 2]), 1
+    names = [real(c) for c in form["cols"]]
+    if k == "df":
+        df = pd.DataFrame(np.array(cols[:len(names)]).T, index=[5, 3, 9, 1, 0, 2])
+        df.columns = names
+        return df, len(names)
+    return {nm: cols[i] for i, nm in enumerate(names)}, len(names)
+
+
+def _naming_one(ob):
+    import warnings
+    import fairlearn.metrics as fm
+    y = [0, 1, 1, 0, 1, 1]; p = [0, 1, 0, 0, 1, 0]
+    sf, ns = _nm_build(ob["sf"], "sf")
+    cf, nc = _nm_build(ob["cf"], "cf")
+    tag = f"sf={json.dumps(ob['sf'])} cf={json.dumps(ob['cf'])}"
+    try:
+        with warnings.catch_warnings():
+            warnings.simplefilter("ignore")
+            mf = fm.MetricFrame(metrics={"sel": fm.selection_rate, "cnt": fm.count}, y_true=y, y_pred=p, sensitive_features=sf, control_features=cf)
+        got = "ok"
+    except ValueError as e:
+        m = str(e)
+        got = "bad_name" if ("must be strings" in m or "must be a string" in m) else "duplicate" if "duplicate feature name" in m else "reserved"
+    except Exception:
+        got = "reserved"
+    if got != ob["outcome"]:
+        return [f"naming {tag}: construction outcome '{got}', Naming.tla says '{ob['outcome']}'"]
+    if got != "ok":
+        return []
+    notes = []
+    if list(mf.sensitive_levels) != ob["sf_names"] or (mf.control_levels or []) != ob["cf_names"]:
+        notes.append(f"naming {tag}: sensitive_levels {mf.sensitive_levels} / control_levels {mf.control_levels}, Naming.tla says {ob['sf_names']} / {ob['cf_names']}")
+    if list(mf.by_group.index.names) != ob["index_names"]:
+        notes.append(f"naming {tag}: by_group index names {list(mf.by_group.index.names)}, Naming.tla says {ob['index_names']}")
+    # the names do not change the numbers: same cells as a frame over neutral containers
+    ref = fm.MetricFrame(metrics={"sel": fm.selection_rate, "cnt": fm.count}, y_true=y, y_pred=p,
+                         sensitive_features=np.array(_NM_DATA["sf"][:ns]).T, control_features=None if cf is None else np.array(_NM_DATA["cf"][:nc]).T)
+    a = {(k if isinstance(k, tuple) else (k,)): tuple(v) for k, v in zip(mf.by_group.index, mf.by_group.fillna(-1).values.tolist())}
+    b = {(k if isinstance(k, tuple) else (k,)): tuple(v) for k, v in zip(ref.by_group.index, ref.by_group.fillna(-1).values.tolist())}
+    if a != b:
+        notes.append(f"naming {tag}: by_group cells differ from those of the unnamed presentation")
+    return notes
+
+
+def naming(ck, limit=None):
+    cfg = lambda k: f"CONSTANTS Emit = TRUE\nNShards = 8\nShard = {k}\nSPECIFICATION Spec\nINVARIANT OkDistinct\nINVARIANT OkStrings\nINVARIANT OkCount\nINVARIANT UnnamedNeverCollide\nINVARIANT EmitInv\nCHECK_DEADLOCK FALSE\n"
+    obs = ck.tlc_shards("Naming", cfg, 8, "extension: feature naming rules of MetricFrame", same_space=True)
+    if limit:
+        ck.rng("naming").shuffle(obs)
+        obs = obs[:limit]
+    n = 0
+    outcomes = {}
+    for ob, notes in zip(obs, pmap(_naming_one, obs, chunksize=16)):
+        n += 1
+        outcomes[ob["outcome"]] = outcomes.get(ob["outcome"], 0) + 1
+        for t in notes:
+            ck.note_drift("[extension Naming.tla] " + t)
+    ck.extra["extension_naming_cases"] = n
+    ck.extra["extension_naming_outcomes"] = outcomes
+
+
+_FC_Y = [0, 1, 1, 0, 1, 0, 1, 1]; _FC_P = [0, 1, 0, 0, 1, 1, 1, 0]
+_FC_G = ["a", "a", "b", "b", "b", "a", "a", "b"]; _FC_C = ["u", "v", "u", "v", "u", "v", "u", "v"]
+_SENTINEL = 12345.0
+
+
+def _fc_frame(ob):
+    import fairlearn.metrics as fm
+    from sklearn.metrics import accuracy_score, confusion_matrix
+    fns = [(accuracy_score if i == 0 else fm.selection_rate) if k == "scalar" else confusion_matrix for i, k in enumerate(ob["kinds"])]
+    mets = fns[0] if ob["bare"] else {f"m{i+1}": f for i, f in enumerate(fns)}
+    return fm.MetricFrame(metrics=mets, y_true=_FC_Y, y_pred=_FC_P, sensitive_features=_FC_G, control_features=_FC_C if ob["control"] else None)
+
+
+def _fc_call(mf, st):
+    kw = {"errors": st["errors"]}
+    if st["method"] != "-":
+        kw["method"] = st["method"]
+    try:
+        return "value", getattr(mf, st["api"])(**kw)
+    except ValueError as e:
+        m = str(e)
+        return ("invalid_errors" if "Invalid error value" in m else "invalid_method" if "Unrecognised comparison method" in m else "nonscalar_error"), None
+    except Exception as e:       # any other exception type is not part of the protocol
+        return f"unexpected {type(e).__name__}", None
+
+
+def _fc_canon(v):
+    import pandas as pd
+    if isinstance(v, pd.DataFrame):
+        return [[None if x != x else round(float(x), 12) for x in row] for row in v.values.tolist()]
+    if isinstance(v, pd.Series):
+        return [None if x != x else round(float(x), 12) for x in v.values.tolist()]
+    return None if v != v else round(float(v), 12)
+
+
+def _fc_one(ob):
+    import warnings
+    import pandas as pd
+    notes = []
+    tag = f"kinds={ob['kinds']} bare={ob['bare']} control={ob['control']}"
+    with warnings.catch_warnings():
+        warnings.simplefilter("ignore")
+        mf = _fc_frame(ob)
+        for i, st in enumerate(ob["hist"]):
+            call = f"{st['api']}({'' if st['method'] == '-' else 'method=' + st['method'] + ', '}errors={st['errors']})"
+            got, val = _fc_call(mf, st)
+            if got != st["answer"]:
+                notes.append(f"calls {tag} step {i+1} {call}: answer '{got}', FrameCalls.tla says '{st['answer']}'")
+                break
+            if got != "value":
+                continue
+            if st["op"] == "mutate":
+                if isinstance(val, pd.DataFrame):
+                    val.iloc[0, 0] = _SENTINEL
+                elif isinstance(val, pd.Series):
+                    val.iloc[0] = _SENTINEL
+                else:
+                    notes.append(f"calls {tag} step {i+1} {call}: FrameCalls.tla says the answer is a mutable container, got {type(val).__name__}")
+                continue
+            first = val.iloc[0, 0] if isinstance(val, pd.DataFrame) else val.iloc[0] if isinstance(val, pd.Series) else val
+            if st["stale"] != (first == _SENTINEL):
+                notes.append(f"calls {tag} step {i+1} {call}: answer {'shows' if first == _SENTINEL else 'does not show'} the caller's earlier write, FrameCalls.tla (Mutate) says stale={st['stale']}")
+                continue
+            if st["stale"]:
+                continue
+            # NaN exactly in the entries of the non-scalar metrics
+            if not ob["bare"]:
+                for j, isnan in enumerate(st["nan"]):
+                    col = val[f"m{j+1}"]
+                    vals = list(col.values) if isinstance(col, pd.Series) else [col]
+                    if any((x != x) != isnan for x in vals):
+                        notes.append(f"calls {tag} step {i+1} {call}: metric m{j+1} entries {vals}, FrameCalls.tla says NaN={isnan}")
+            else:
+                vals = list(val.values) if isinstance(val, pd.Series) else [val]
+                if any((x != x) != st["nan"][0] for x in vals):
+                    notes.append(f"calls {tag} step {i+1} {call}: entries {vals}, FrameCalls.tla says NaN={st['nan'][0]}")
+            # history independence: the same call on a frame that has seen no other call
+            g2, v2 = _fc_call(_fc_frame(ob), st)
+            if g2 != got or _fc_canon(v2) != _fc_canon(val):
+                notes.append(f"calls {tag} step {i+1} {call}: answer depends on the calls made before ({_fc_canon(val)} vs fresh {_fc_canon(v2)})")
+    return notes
+
+
+def frame_calls(ck):
+    laws = "INVARIANT Pure\nINVARIANT StaleOnlyAfterMutate\nINVARIANT ValidationFirst\nINVARIANT ScalarFramesAnswer\nINVARIANT CoerceAnswers\n"
+    ck.tlc("FrameCalls", f"CONSTANTS MaxLen = 3\nEmit = FALSE\nSPECIFICATION Spec\n{laws}CHECK_DEADLOCK FALSE\n", "extension: aggregate call protocol laws, histories <= 3", timeout=900)
+    obs = ck.tlc("FrameCalls", f"CONSTANTS MaxLen = 2\nEmit = TRUE\nSPECIFICATION Spec\n{laws}INVARIANT EmitInv\nCHECK_DEADLOCK FALSE\n",
+                 "extension: emit all call histories of length 2", workers=1, timeout=900).emitted
+    rnd = ck.rng("frame_calls")
+    rnd.shuffle(obs)
+    obs = obs[:1200 if ck.quick else 6000]
+    obs += ck.tlc("FrameCalls", f"CONSTANTS MaxLen = 5\nEmit = TRUE\nSPECIFICATION Spec\n{laws}INVARIANT EmitInv\nCHECK_DEADLOCK FALSE\n",
+                  "extension: simulated call histories of length 5", workers=1, simulate=f"num={300 if ck.quick else 2000}", depth=6, timeout=900).emitted
+    n = stale = mut = 0
+    for ob, notes in zip(obs, pmap(_fc_one, obs, chunksize=8)):
+        n += 1
+        stale += any(s["stale"] for s in ob["hist"])
+        mut += any(s["op"] == "mutate" for s in ob["hist"])
+        for t in notes:
+            ck.note_drift("[extension FrameCalls.tla] " + t)
+    ck.extra["extension_frame_call_histories"] = n
+    ck.extra["extension_frame_call_histories_with_mutation"] = mut
+    ck.extra["extension_frame_call_histories_with_stale_answer"] = stale
